@@ -667,68 +667,94 @@ Lemma emit_active : forall s evs, active (emit s evs) = active s /\ next_h (emit
   last_new (emit s evs) = None.
 Proof. intros. unfold emit. simpl. auto. Qed.
 
-(* NV, not sequential: pair i will end in ID n-1-i; all but ID 0 are allocated up front *)
-Lemma nv_handles_spec : forall k n s c, last_new s = None -> G0 k (active s) c -> H0 s ->
-  ~ In 0 (ids s) -> 1 <= n -> n <= max_q k ->
-  (forall e, nv_handles s n = inr e -> e = ErrReject) /\
-  (forall s' vs, nv_handles s n = inl (s', vs) ->
-     exists c', Ext s c s' c' /\ G1 k 0 (active s') c' /\ H0 s' /\ last_new s' = None /\ vs <> [] /\
-       (forall v, In v vs -> In v (ids s')) /\
-       (exists new, active s' = active s ++ new /\ length new = n /\ map snd new = vs) /\
-       next_h s' = next_h s + n).
+(* NV, not sequential: memory qubits with the lowest unused IDs other than 0 *)
+Lemma pick_ids_spec : forall m l, exists asc, pick_ids l m = Some asc /\ length asc = m /\ NoDup asc /\
+  (forall v, In v asc -> ~ In v l /\ v <> 0 /\ v <= length l + m).
 Proof.
-  intros k n. induction n as [|m IH]; intros s c HL HG HH H0n Hn1 Hnq; [lia|].
-  simpl. destruct m as [|m'].
-  - (* the last handle: ID 0, no allocation *)
-    simpl. split; [intros e He; discriminate|]. intros s' vs He. inversion He; subst. clear He.
-    exists c. split; [apply Ext_same; reflexivity|].
-    split; [apply G0_to_G1_add; [exact HG | exact H0n | lia]|].
-    split; [apply H0_add; exact HH|]. split; [exact HL|]. split; [discriminate|].
-    split; [intros v [<-|[]]; unfold ids; simpl; rewrite map_app, in_app_iff; simpl; tauto|].
-    split; [exists [(next_h s, 0)]; simpl; auto | simpl; lia].
-  - remember (S m') as m eqn:Em.
-    assert (Hmz : (m =? 0) = false) by (apply Nat.eqb_neq; lia).
-    rewrite Hmz. simpl. destruct (mem m (ids s)) eqn:Emem.
-    + split; [intros e He; inversion He; reflexivity | intros s' vs He; discriminate].
-    + apply mem_false in Emem.
-      remember (emit s [EAlloc m; EUse [m]]) as s1 eqn:Es1.
-      assert (Hstep : exists c1, Ext s c s1 c1 /\ G0 k (active s ++ [(next_h s, m)]) c1).
-      { rewrite Es1. apply (emit_Ext k s c [EAlloc m; EUse [m]] (fun c2 => G0 k (active s ++ [(next_h s, m)]) c2)).
-        - unfold Rel. rewrite HL. exact HG.
-        - intros c1 HG1. destruct (G0_alloc k (active s) c1 (next_h s) m HG1 Emem) as [c2 [E1 [_ HG2]]]; [lia|].
-          exists c2. split; [|exact HG2]. eapply ok_cons; [exact E1|]. apply ok_one.
-          eapply G0_use; [exact HG2|]. simpl. intros x [<-|[]]. rewrite map_app, in_app_iff. simpl. tauto. }
-      destruct Hstep as [c1 [HE1 HG1]].
-      destruct (emit_active s [EAlloc m; EUse [m]]) as [Ha1 [Hn1' Hl1]]. rewrite <- Es1 in Ha1, Hn1', Hl1.
-      destruct (IH (add_handle s1 m) c1) as [IHe IHs].
-      * simpl. exact Hl1.
-      * unfold add_handle. simpl. rewrite Ha1, Hn1'. exact HG1.
-      * apply H0_add. unfold H0, handles. rewrite Ha1, Hn1'. exact HH.
-      * unfold ids, add_handle. simpl. rewrite Ha1, map_app, in_app_iff. simpl. unfold ids in H0n.
-        intros [H|[H|[]]]; [contradiction | lia].
-      * lia.
-      * lia.
-      * split.
-        -- intros e He. destruct (nv_handles (add_handle s1 m) m) as [[s2 vs2]|e2] eqn:E2; [discriminate|].
-           inversion He; subst. apply IHe. reflexivity.
-        -- intros s' vs He. destruct (nv_handles (add_handle s1 m) m) as [[s2 vs2]|e2] eqn:E2; [|discriminate].
-           inversion He; subst. clear He.
-           destruct (IHs s' vs2 eq_refl) as [c' [HE2 [HG' [HH' [HL' [_ [Hin [[new [Hnew [Hlen Hsnd]]] Hnh]]]]]]]].
-           exists c'. split.
-           { eapply Ext_trans; [exact HE1|]. destruct HE2 as [evs [Hp Ho]]. exists evs. split; [exact Hp | exact Ho]. }
-           split; [exact HG'|]. split; [exact HH'|]. split; [exact HL'|]. split; [discriminate|].
-           split.
-           { intros v [<-|Hv]; [|apply Hin; exact Hv]. unfold ids. rewrite Hnew. unfold add_handle. simpl.
-             rewrite ?Ha1, !map_app, !in_app_iff. simpl. tauto. }
-           split.
-           { exists ((next_h s, S m') :: new). unfold add_handle in Hnew. simpl in Hnew.
-             rewrite Hnew, ?Ha1, ?Hn1', <- app_assoc. simpl. split; [reflexivity|]. split; [lia | f_equal; exact Hsnd]. }
-           unfold add_handle in Hnh. simpl in Hnh. rewrite ?Hn1' in Hnh. lia.
+  induction m as [|m IH]; intros l; simpl.
+  - exists []. split; [reflexivity|]. split; [reflexivity|]. split; [constructor | intros v []].
+  - destruct (new_id_spec (0 :: l)) as [v [Ev [Hn [_ Hle]]]]. rewrite Ev.
+    destruct (IH (v :: l)) as [asc [E [Hl [Hnd Hs]]]]. rewrite E.
+    exists (v :: asc). simpl in *. split; [reflexivity|]. split; [f_equal; exact Hl|]. split.
+    + constructor; [|exact Hnd]. intros H. apply Hs in H. destruct H as [H _]. apply H. left. reflexivity.
+    + intros x [<-|Hx].
+      * split; [intros H; apply Hn; right; exact H|]. split; [intros ->; apply Hn; left; reflexivity | lia].
+      * destruct (Hs x Hx) as [H1 [H2 H3]]. split; [intros H; apply H1; right; exact H|]. split; [exact H2 | lia].
+Qed.
+
+Lemma alloc_handles_ok : forall k vs s c, last_new s = None -> G0 k (active s) c -> H0 s -> NoDup vs ->
+  (forall v, In v vs -> ~ In v (ids s) /\ v < max_q k) ->
+  exists c' new, Ext s c (alloc_handles s vs) c' /\ G0 k (active (alloc_handles s vs)) c' /\
+    H0 (alloc_handles s vs) /\ last_new (alloc_handles s vs) = None /\
+    active (alloc_handles s vs) = active s ++ new /\ map snd new = vs /\
+    next_h (alloc_handles s vs) = next_h s + length vs.
+Proof.
+  intros k vs. induction vs as [|v r IH]; intros s c HL HG HH Hnd Hvs; simpl.
+  - exists c, []. rewrite app_nil_r, Nat.add_0_r. split; [apply Ext_refl|]. auto 10.
+  - inversion Hnd as [|? ? Hv Hnd']; subst.
+    destruct (Hvs v (or_introl eq_refl)) as [Hvn Hvlt].
+    remember (emit s [EAlloc v; EUse [v]]) as s1 eqn:Es1.
+    assert (Hstep : exists c1, Ext s c s1 c1 /\ G0 k (active s ++ [(next_h s, v)]) c1).
+    { rewrite Es1. apply (emit_Ext k s c [EAlloc v; EUse [v]] (fun c2 => G0 k (active s ++ [(next_h s, v)]) c2)).
+      - unfold Rel. rewrite HL. exact HG.
+      - intros c1 HG1. destruct (G0_alloc k (active s) c1 (next_h s) v HG1 Hvn Hvlt) as [c2 [E1 [_ HG2]]].
+        exists c2. split; [|exact HG2]. eapply ok_cons; [exact E1|]. apply ok_one.
+        eapply G0_use; [exact HG2|]. simpl. intros x [<-|[]]. rewrite map_app, in_app_iff. simpl. tauto. }
+    destruct Hstep as [c1 [HE1 HG1]].
+    destruct (emit_active s [EAlloc v; EUse [v]]) as [Ha1 [Hn1 Hl1]]. rewrite <- Es1 in Ha1, Hn1, Hl1.
+    destruct (IH (add_handle s1 v) c1) as [c' [new [HE [HG' [HH' [HL' [Ha [Hs Hnh]]]]]]]].
+    + simpl. exact Hl1.
+    + unfold add_handle. simpl. rewrite Ha1, Hn1. exact HG1.
+    + apply H0_add. unfold H0, handles. rewrite Ha1, Hn1. exact HH.
+    + exact Hnd'.
+    + intros x Hx. destruct (Hvs x (or_intror Hx)) as [H1 H2]. split; [|exact H2].
+      unfold ids, add_handle. simpl. rewrite Ha1, map_app, in_app_iff. simpl. unfold ids in H1.
+      intros [H|[H|[]]]; [contradiction | subst; contradiction].
+    + exists c', ((next_h s, v) :: new). split.
+      { eapply Ext_trans; [exact HE1|]. destruct HE as [evs [Hp Ho]]. exists evs. split; [exact Hp | exact Ho]. }
+      split; [exact HG'|]. split; [exact HH'|]. split; [exact HL'|].
+      assert (Hah : active (add_handle s1 v) = active s ++ [(next_h s, v)])
+        by (unfold add_handle; simpl; rewrite Ha1, Hn1; reflexivity).
+      assert (Hnh' : next_h (add_handle s1 v) = S (next_h s)) by (unfold add_handle; simpl; rewrite Hn1; reflexivity).
+      rewrite Hah in Ha. rewrite Hnh' in Hnh.
+      split; [rewrite Ha, <- app_assoc; reflexivity|]. split; [simpl; f_equal; exact Hs | simpl; lia].
+Qed.
+
+Lemma nv_handles_spec : forall k n s c, last_new s = None -> G0 k (active s) c -> H0 s ->
+  ~ In 0 (ids s) -> 1 <= n -> length (active s) + n <= max_q k ->
+  exists s' vs c', nv_handles s n = inl (s', vs) /\ Ext s c s' c' /\ G1 k 0 (active s') c' /\ H0 s' /\
+    last_new s' = None /\ vs <> [] /\ (forall v, In v vs -> In v (ids s')) /\
+    (exists new, active s' = active s ++ new /\ length new = n /\ map snd new = vs) /\
+    next_h s' = next_h s + n.
+Proof.
+  intros k n s c HL HG HH H0n Hn Hroom. unfold nv_handles.
+  destruct (pick_ids_spec (n - 1) (ids s)) as [asc [E [Hl [Hnd Hs]]]]. rewrite E.
+  assert (Hlen : length (ids s) = length (active s)) by (unfold ids; apply map_length).
+  destruct (alloc_handles_ok k (rev asc) s c HL HG HH) as [c' [new [HE [HG' [HH' [HL' [Ha [Hsnd Hnh]]]]]]]].
+  - apply NoDup_rev. exact Hnd.
+  - intros v Hv. apply in_rev in Hv. destruct (Hs v Hv) as [H1 [_ H3]]. split; [exact H1 | lia].
+  - set (s1 := alloc_handles s (rev asc)) in *.
+    assert (H01 : ~ In 0 (ids s1)).
+    { unfold ids. rewrite Ha, map_app, in_app_iff, Hsnd. intros [H|H]; [exact (H0n H)|].
+      apply in_rev in H. destruct (Hs 0 H) as [_ [H2 _]]. congruence. }
+    eexists. exists (rev asc ++ [0]), c'. split; [reflexivity|].
+    split; [destruct HE as [evs [Hp Ho]]; exists evs; split; [exact Hp | exact Ho]|].
+    split; [apply G0_to_G1_add; [exact HG' | exact H01 | lia]|].
+    split; [apply H0_add; exact HH'|]. split; [exact HL'|].
+    split; [intros H; apply app_eq_nil in H; destruct H; discriminate|].
+    rewrite rev_length, Hl in Hnh.
+    split.
+    + intros v Hv. unfold ids, add_handle. simpl. rewrite Ha, !map_app, Hsnd. simpl.
+      rewrite !in_app_iff in *. simpl in *. tauto.
+    + split; [|simpl; lia].
+      exists (new ++ [(next_h s1, 0)]). unfold add_handle. simpl. rewrite Ha, app_assoc.
+      split; [reflexivity|]. rewrite app_length, map_app, Hsnd. simpl.
+      split; [|reflexivity]. rewrite <- (map_length snd new), Hsnd, rev_length, Hl. lia.
 Qed.
 
 (* ------------------------------------------------------------------ one host operation *)
 Definition StepOK (k : cfg) (s : sdk) (c : ctrl) (o : op) : Prop :=
-  (forall e, sdk_step k s o = inr e -> e = ErrReject) /\
+  (forall e, sdk_step k s o <> inr e) /\
   (forall s', sdk_step k s o = inl s' -> exists c', Ext s c s' c' /\ Good k s' c').
 
 Lemma emit_None : forall s evs, last_new s = None -> pending (emit s evs) = pending s ++ evs.
@@ -766,18 +792,44 @@ Proof.
   apply emit_use_ok; [exact HG|]. intros x [<-|[]]. apply (id_of_In _ _ _ Ev).
 Qed.
 
-Lemma step_gate2 : forall k s c h1 h2, Good k s c -> live s h1 = true -> live s h2 = true ->
-  hits_carbon_gate k s (Gate2 h1 h2) = false -> StepOK k s c (Gate2 h1 h2).
+(* the electron reserved around a carbon-carbon gate is released again *)
+Lemma borrow_ok : forall k a0 c a b, G0 k a0 c -> ~ In 0 (map snd a0) ->
+  In a (map snd a0) -> In b (map snd a0) -> ok c [EAlloc 0; EUse [0]; EUse [0; a; b]; EFree 0] c.
 Proof.
-  intros k s c h1 h2 HG Hl1 Hl2 Hd. unfold StepOK. simpl.
+  intros k a0 c a b [Hcap _ _ Hs Hlt] H0 Ha Hb.
+  assert (H0n : ~ In 0 (alloc c)) by (intros H; apply H0; apply Hs; exact H).
+  assert (H0c : 0 < cap c) by (rewrite Hcap; specialize (Hlt a Ha); lia).
+  destruct (exec_alloc_ok c 0 H0c H0n) as [Ea _].
+  set (c1 := mkCtrl (0 :: alloc c) (cap c)) in *.
+  assert (Hin : forall x, In x (map snd a0) -> In x (alloc c1) /\ x < cap c1).
+  { intros x Hx. split; [right; apply Hs; exact Hx | simpl; rewrite Hcap; apply Hlt; exact Hx]. }
+  eapply ok_cons; [exact Ea|].
+  eapply ok_cons; [apply exec_use_ok; simpl; intros x [<-|[]]; split; [left; reflexivity | exact H0c]|].
+  eapply ok_cons.
+  { apply exec_use_ok. simpl. intros x [<-|[<-|[<-|[]]]]; [split; [left; reflexivity | exact H0c] | apply Hin; exact Ha | apply Hin; exact Hb]. }
+  apply ok_one. rewrite (exec_free_ok c1 0 H0c (or_introl eq_refl)). unfold c1. simpl.
+  rewrite remove_id_head by exact H0n. destruct c as [al cp]. reflexivity.
+Qed.
+
+Lemma step_gate2 : forall k s c h1 h2, Good k s c -> live s h1 = true -> live s h2 = true ->
+  StepOK k s c (Gate2 h1 h2).
+Proof.
+  intros k s c h1 h2 HG Hl1 Hl2. unfold StepOK. simpl.
   destruct (live_id_of _ _ Hl1) as [a Ea]. destruct (live_id_of _ _ Hl2) as [b Eb].
-  simpl in Hd. rewrite Ea, Eb in *.
+  rewrite Ea, Eb.
   split; [intros e He; discriminate|]. intros s' He. inversion He; subst.
-  apply emit_use_ok; [exact HG|]. unfold gate2_uses.
-  destruct (transp k && negb (a =? 0) && negb (b =? 0)) eqn:E.
-  - simpl in Hd. apply negb_false_iff in Hd. apply mem_In in Hd.
-    intros x [<-|[<-|[<-|[]]]]; [exact Hd | apply (id_of_In _ _ _ Ea) | apply (id_of_In _ _ _ Eb)].
-  - intros x [<-|[<-|[]]]; [apply (id_of_In _ _ _ Ea) | apply (id_of_In _ _ _ Eb)].
+  pose proof (proj1 (id_of_In _ _ _ Ea)) as Hina. pose proof (proj1 (id_of_In _ _ _ Eb)) as Hinb.
+  unfold gate2_events, gate2_uses.
+  destruct (transp k && negb (a =? 0) && negb (b =? 0)) eqn:E; simpl andb.
+  - destruct (mem 0 (ids s)) eqn:E0; simpl negb; cbv iota.
+    + apply mem_In in E0. apply emit_use_ok; [exact HG|].
+      intros x [<-|[<-|[<-|[]]]]; assumption.
+    + apply mem_false in E0. destruct HG as [HH [HR Hlen]].
+      destruct (emit_Ext k s c [EAlloc 0; EUse [0]; EUse [0; a; b]; EFree 0] (fun c2 => G0 k (active s) c2) HR)
+        as [c2 [HE HG2]].
+      * intros c1 HG1. exists c1. split; [|exact HG1]. eapply borrow_ok; eassumption.
+      * exists c2. split; [exact HE|]. split; [exact HH|]. split; [exact HG2 | exact Hlen].
+  - apply emit_use_ok; [exact HG|]. intros x [<-|[<-|[]]]; assumption.
 Qed.
 
 Lemma Good_room : forall k s c, Good k s c -> nv k = true -> length (active s) <= max_q k - 1.
@@ -872,12 +924,13 @@ Proof.
 Qed.
 
 Lemma step_keep : forall k s c n r sq np, Good k s c -> 1 <= n -> length (active s) + n <= budget k ->
-  StepOK k s c (EprKeep n r sq np).
+  (sq = true -> n = 1) -> StepOK k s c (EprKeep n r sq np).
 Proof.
-  intros k s c n r sq np HGood Hn Hb. set (cs := if r then np else []). pose proof (budget_le k) as Hbl. unfold StepOK. simpl.
+  intros k s c n r sq np HGood Hn Hb Hsq. set (cs := if r then np else []). pose proof (budget_le k) as Hbl. unfold StepOK. simpl.
   destruct (n =? 0) eqn:En0; [apply Nat.eqb_eq in En0; lia|].
-  destruct (sq && (1 <? n)) eqn:Esq.
-  { split; [intros e He; inversion He; reflexivity | intros s' He; discriminate]. }
+  assert (Esq : sq && (1 <? n) = false).
+  { destruct sq; [|reflexivity]. rewrite (Hsq eq_refl). reflexivity. }
+  rewrite Esq.
   assert (Enq : (max_q k <? n) = false) by (apply Nat.ltb_ge; lia).
   rewrite Enq, andb_false_r.
   destruct (nv k) eqn:Hnv.
@@ -886,19 +939,17 @@ Proof.
     destruct (free_up0_ok k s c HGood (Good_room _ _ _ HGood Hnv)) as [s1 [c1 [E1 [HE1 [HG1 [H01 [Hh1 [Hn1 _]]]]]]]].
     rewrite E1. destruct HG1 as [HH1 [HR1 Hlen1]].
     destruct (commit_G0 _ _ _ HR1) as [c2 [HE2 HG2]].
-    destruct (nv_handles_spec k n (commit s1) c2 eq_refl HG2 HH1 H01 Hn) as [Hrej Hok]; [lia|].
-    destruct (nv_handles (commit s1) n) as [[s2 vs]|e] eqn:E2.
-    + split; [intros e He; discriminate|]. intros s' He. inversion He; subst. clear He.
-      destruct (Hok s2 vs eq_refl) as [c3 [HE3 [HG3 [HH3 [HL3 [Hne [Hin [[new [Hnew [Hlen _]]] _]]]]]]]].
-      destruct (move_loop_ok k (active s2) vs cs c3 HG3 Hne Hin) as [c4 [O4 HG4]].
-      exists c4. split.
-      * eapply Ext_trans; [exact HE1|]. eapply Ext_trans; [exact HE2|]. eapply Ext_trans; [exact HE3|].
-        exists (move_loop vs cs). split; [apply emit_None; exact HL3 | exact O4].
-      * split; [exact HH3|]. split; [exact HG4|]. simpl. rewrite Hnew, app_length, Hlen. simpl.
-        assert (Hl : length (active s1) = length (active s)).
-        { rewrite <- (map_length fst (active s1)), <- (map_length fst (active s)). f_equal. exact Hh1. }
-        lia.
-    + split; [|intros s' He; discriminate]. intros e0 He. inversion He; subst. apply Hrej. reflexivity.
+    assert (Hl : length (active s1) = length (active s)).
+    { rewrite <- (map_length fst (active s1)), <- (map_length fst (active s)). f_equal. exact Hh1. }
+    destruct (nv_handles_spec k n (commit s1) c2 eq_refl HG2 HH1 H01 Hn)
+      as [s2 [vs [c3 [E2 [HE3 [HG3 [HH3 [HL3 [Hne [Hin [[new [Hnew [Hlen _]]] _]]]]]]]]]]].
+    { simpl. rewrite Hl. rewrite (budget_nv k Hnv) in Hb. lia. }
+    rewrite E2. split; [intros e He; discriminate|]. intros s' He. inversion He; subst s'. clear He.
+    destruct (move_loop_ok k (active s2) vs cs c3 HG3 Hne Hin) as [c4 [O4 HG4]].
+    exists c4. split.
+    + eapply Ext_trans; [exact HE1|]. eapply Ext_trans; [exact HE2|]. eapply Ext_trans; [exact HE3|].
+      exists (move_loop vs cs). split; [apply emit_None; exact HL3 | exact O4].
+    + split; [exact HH3|]. split; [exact HG4|]. simpl. rewrite Hnew, app_length, Hlen. simpl in *. lia.
   - (* generic *)
     destruct (generic_handles k s c n HGood Hnv Hn Hb)
       as [c1 [s1 [vs [new [HE [HG [E [Ha [Hv [Hl [Hp [Hln [HH1 [Hnd [Hdis [Hbd Hz]]]]]]]]]]]]]]]].
@@ -1129,10 +1180,10 @@ Proof.
 Qed.
 
 (* ------------------------------------------------------------------ any program *)
-Lemma step_ok : forall k s c o, Good k s c -> in_budget k s o = true -> outside_findings k s o = true ->
+Lemma step_ok : forall k s c o, Good k s c -> in_budget k s o = true ->
   o <> Flush -> StepOK k s c o.
 Proof.
-  intros k s c o HG Hb Hf Hne. unfold outside_findings in Hf. rename Hf into Hd. apply negb_true_iff in Hd.
+  intros k s c o HG Hb Hne.
   destruct o; cbn [in_budget] in Hb.
   - apply step_new; [exact HG | apply Nat.leb_le; exact Hb].
   - apply step_gate1; assumption.
@@ -1141,7 +1192,9 @@ Proof.
   - apply step_mi; assumption.
   - apply step_md; assumption.
   - apply step_free; assumption.
-  - apply andb_true_iff in Hb. destruct Hb as [H1 H2]. apply Nat.leb_le in H1, H2. apply step_keep; assumption.
+  - apply andb_true_iff in Hb. destruct Hb as [Hb H3]. apply andb_true_iff in Hb. destruct Hb as [H1 H2].
+    apply Nat.leb_le in H1, H2. apply step_keep; try assumption.
+    intros ->. simpl in H3. apply Nat.eqb_eq. exact H3.
   - apply andb_true_iff in Hb. destruct Hb as [Hb H3]. apply andb_true_iff in Hb. destruct Hb as [H1 H2].
     apply Nat.leb_le in H1, H2. apply step_ctx; try assumption.
     intros Hkp Hsc. rewrite Hkp, Hsc in H3. simpl in H3. apply Nat.eqb_eq. exact H3.
@@ -1197,19 +1250,19 @@ Proof.
   - exists c1. split; [apply ok_nil|]. split; [exact HH|]. split; [exact HG | exact Hlen].
 Qed.
 
-Theorem agree_step : forall k s c o, Inv k s c -> in_budget k s o = true -> outside_findings k s o = true ->
+Theorem agree_step : forall k s c o, Inv k s c -> in_budget k s o = true ->
   match o with
   | Flush => exists c', exec_events c (all_pending s) = (c', all_pending s, None) /\
                         Agree k s c' /\ Inv k (after_flush s) c'
-  | _ => (forall e, sdk_step k s o = inr e -> e = ErrReject) /\
+  | _ => (forall e, sdk_step k s o <> inr e) /\
          (forall s', sdk_step k s o = inl s' -> Inv k s' c /\ NoDup (ids s') /\ length (ids s') <= budget k)
   end.
 Proof.
-  intros k s c o HI Hb Hf.
+  intros k s c o HI Hb.
   assert (Hnf : o <> Flush ->
-     (forall e, sdk_step k s o = inr e -> e = ErrReject) /\
+     (forall e, sdk_step k s o <> inr e) /\
      (forall s', sdk_step k s o = inl s' -> Inv k s' c /\ NoDup (ids s') /\ length (ids s') <= budget k)).
-  { intros Hne. destruct HI as [c0 [O0 HG]]. destruct (step_ok k s c0 o HG Hb Hf Hne) as [He Hs].
+  { intros Hne. destruct HI as [c0 [O0 HG]]. destruct (step_ok k s c0 o HG Hb Hne) as [He Hs].
     split; [exact He|]. intros s' E. destruct (Hs s' E) as [c' [[evs [Hp O1]] HG']].
     split; [|split].
     - exists c'. split; [rewrite Hp; eapply ok_app; eassumption | exact HG'].
@@ -1223,7 +1276,7 @@ Definition good_obs (k : cfg) (o : obs) : Prop :=
   | OStep i => NoDup i /\ length i <= budget k
   | OFlush i _ a None => Permutation i a /\ NoDup i /\ length i <= budget k
   | OFlush _ _ _ (Some _) => False
-  | OReject => True
+  | OReject => False      (* a program within the budget is never refused *)
   | OModelErr => False
   end.
 
@@ -1243,46 +1296,47 @@ Lemma op_eq_flush : forall o : op, {o = Flush} + {o <> Flush}.
 Proof. intros o. destruct o; try (right; discriminate). left. reflexivity. Qed.
 
 Theorem run_good : forall k ops s c, Inv k s c ->
-  always in_budget k s ops = true -> always outside_findings k s ops = true ->
+  always in_budget k s ops = true ->
   Forall (good_obs k) (run k s c ops).
 Proof.
-  intros k ops. induction ops as [|o r IH]; intros s c HI Hb Hf; [constructor|].
+  intros k ops. induction ops as [|o r IH]; intros s c HI Hb; [constructor|].
   destruct (op_eq_flush o) as [->|Hne].
-  - simpl in Hb, Hf. destruct (flush_ok k s c HI) as [c' [E [[HP [Hnd Hl]] HI']]].
+  - simpl in Hb. destruct (flush_ok k s c HI) as [c' [E [[HP [Hnd Hl]] HI']]].
     simpl. rewrite E. constructor.
     + simpl. auto.
-    + apply IH; [exact HI' | exact Hb | exact Hf].
-  - rewrite always_nonflush in Hb, Hf by exact Hne.
-    apply andb_true_iff in Hb. destruct Hb as [Hb1 Hb2]. apply andb_true_iff in Hf. destruct Hf as [Hf1 Hf2].
-    pose proof (agree_step k s c o HI Hb1 Hf1) as HS.
-    assert (HS' : (forall e, sdk_step k s o = inr e -> e = ErrReject) /\
+    + apply IH; [exact HI' | exact Hb].
+  - rewrite always_nonflush in Hb by exact Hne.
+    apply andb_true_iff in Hb. destruct Hb as [Hb1 Hb2].
+    pose proof (agree_step k s c o HI Hb1) as HS.
+    assert (HS' : (forall e, sdk_step k s o <> inr e) /\
        (forall s', sdk_step k s o = inl s' -> Inv k s' c /\ NoDup (ids s') /\ length (ids s') <= budget k)).
     { destruct o; try exact HS. congruence. }
     clear HS. destruct HS' as [He Hs]. rewrite run_nonflush by exact Hne.
     destruct (sdk_step k s o) as [s'|e] eqn:E.
     + destruct (Hs s' eq_refl) as [HI' [Hnd Hl]]. constructor; [simpl; auto|].
       apply IH; assumption.
-    + rewrite (He e eq_refl). constructor; [exact I | constructor].
+    + exfalso. exact (He e eq_refl).
 Qed.
 
 (* ------------------------------------------------------------------ the statements of C09 *)
-Theorem agree_reachable : forall k ops, within_budget k ops -> avoids_findings k ops ->
+Theorem agree_reachable : forall k ops, within_budget k ops ->
   Forall (good_obs k) (run0 k ops).
 Proof.
-  intros k ops Hb Hf. unfold run0. apply run_good; [apply agree_init | exact Hb | exact Hf].
+  intros k ops Hb. unfold run0. apply run_good; [apply agree_init | exact Hb].
 Qed.
 
 Definition is_fault (o : obs) : Prop :=
   match o with
   | OFlush _ _ _ (Some _) => True
   | OModelErr => True
+  | OReject => True
   | _ => False
   end.
 
-Theorem no_alloc_fault : forall k ops, within_budget k ops -> avoids_findings k ops ->
+Theorem no_alloc_fault : forall k ops, within_budget k ops ->
   forall o, In o (run0 k ops) -> ~ is_fault o.
 Proof.
-  intros k ops Hb Hf o Hin Hflt. pose proof (agree_reachable k ops Hb Hf) as HF.
+  intros k ops Hb o Hin Hflt. pose proof (agree_reachable k ops Hb) as HF.
   rewrite Forall_forall in HF. specialize (HF o Hin). destruct o as [i|i t a [f|]| |]; simpl in *; contradiction.
 Qed.
 
@@ -1326,10 +1380,10 @@ Proof.
   exists s', c'. split; [exact E|]. split; [exact HE|]. split; [exact HG'|]. split; [exact H0'|]. split; [exact Hh | exact Hid].
 Qed.
 
-Theorem no_alloc_fault_b : forall k ops, within_budget k ops -> avoids_findings k ops ->
+Theorem no_alloc_fault_b : forall k ops, within_budget k ops ->
   has_fault (run0 k ops) = false.
 Proof.
-  intros k ops Hb Hf. unfold has_fault. destruct (existsb is_faultb (run0 k ops)) eqn:E; [|reflexivity].
+  intros k ops Hb. unfold has_fault. destruct (existsb is_faultb (run0 k ops)) eqn:E; [|reflexivity].
   exfalso. apply existsb_exists in E. destruct E as [o [Hin Ho]].
-  apply (no_alloc_fault k ops Hb Hf o Hin). destruct o as [i|i t a [f|]| |]; simpl in *; try discriminate; exact I.
+  apply (no_alloc_fault k ops Hb o Hin). destruct o as [i|i t a [f|]| |]; simpl in *; try discriminate; exact I.
 Qed.
